@@ -2,6 +2,7 @@ import PigeonVerif.Model.Protocol
 import PigeonVerif.Model.MidProtocol
 import PigeonVerif.Spec.SpecProtocol
 import PigeonVerif.Model.WfgProtocol
+import PigeonVerif.Opt.OptProtocol
 open PV PV.Protocol
 
 partial def loop (spec wfg lrwf : Bool) (h : IO.FS.Stream) (out : IO.FS.Stream) (tab : Array CaseRange) : IO Unit := do
@@ -17,6 +18,11 @@ partial def loop (spec wfg lrwf : Bool) (h : IO.FS.Stream) (out : IO.FS.Stream) 
     match parseLine MidProtocol.midCase line with
     | .ok c => out.putStrLn (MidProtocol.runMid c)
     | .error e => out.putStrLn s!"midres 0 error {e}"
+    loop spec wfg lrwf h out tab
+  else if line.startsWith "optv " then
+    match parseLine OptProtocol.optCase line with
+    | .ok c => out.putStrLn (OptProtocol.runOptv c)
+    | .error e => out.putStrLn s!"optvres 0 error {e}"
     loop spec wfg lrwf h out tab
   else
     match parseLine case_ line with
